@@ -774,4 +774,53 @@ impl<K: KdfTrait> Drop for ExporterSecret<K> {
         self.expand_multi_info(&labeled_info, out)""", """        let labeled_info = [&len_buf, VERSION_LABEL, suite_id, label, info];
         let n = core::cmp::min(out.len(), 255 * <D as OutputSizeUser>::output_size());
         self.expand_multi_info(&labeled_info, &mut out[..n])""")]),
+    # ------------------------------------------------------------------ C07
+    dict(name='c07-psk-dropped-from-secret', expect=[('C07', 'R07.1')],
+         note='PSK never enters the key schedule (both sides): Psk mode gives no PSK authentication',
+         edits=[(SETUP, 'labeled_extract::<Kdf>(&shared_secret.0, &suite_id, b"secret", mode.get_psk_bytes());',
+                 'labeled_extract::<Kdf>(&shared_secret.0, &suite_id, b"secret", &[]);')]),
+    dict(name='c07-constant-mode-byte', expect=[('C07', 'R07.1')],
+         note='mode byte fixed to 0 in key_schedule_context: Base and Psk-with-empty... collide',
+         edits=[(SETUP, "            &[mode.mode_id()],", "            &[0u8],")]),
+    dict(name='c07-info-hash-of-empty', expect=[('C07', 'R07.1')],
+         note='info never bound (both sides)',
+         edits=[(SETUP, 'labeled_extract::<Kdf>(&[], &suite_id, b"info_hash", info);', 'labeled_extract::<Kdf>(&[], &suite_id, b"info_hash", &[]);')]),
+    dict(name='c07-suite-id-without-aead', expect=[('C07', 'R07.1')],
+         note='AES-256-GCM and ChaCha20Poly1305 sessions share keys (same Nk/Nn)',
+         edits=[(UTIL, "    write_u16_be(&mut suite_id[8..10], A::AEAD_ID);", "    write_u16_be(&mut suite_id[8..10], 0);")]),
+    dict(name='c07-kem-context-without-pkRm', expect=[('C07', 'R07.1')],
+         note='recipient key not bound into the shared secret (base mode, both sides)',
+         edits=[(DHKEM, """                    let (kem_context_buf, kem_context_size) = concat_with_known_maxlen!(
+                        MAX_PUBKEY_SIZE,
+                        &encapped_key.to_bytes(),
+                        &pk_recip.to_bytes()
+                    );
+                    let kem_context = &kem_context_buf[..kem_context_size];
+
+                    // The "unauthed shared secret" is derived from just the KEX of the ephemeral
+                    // input with the recipient pubkey. The HKDF-Expand call only errors if the
+                    // output values are 255x the digest size of the hash function. Since these
+                    // values are fixed at compile time, we don't worry about it.
+                    let mut buf = <SharedSecret<$kem_name> as Default>::default();
+                    extract_and_expand::<$kdf>(
+                        &kex_res_eph.to_bytes(),""", """                    let (kem_context_buf, kem_context_size) = concat_with_known_maxlen!(
+                        MAX_PUBKEY_SIZE,
+                        &encapped_key.to_bytes(),
+                        &encapped_key.to_bytes()
+                    );
+                    let kem_context = &kem_context_buf[..kem_context_size];
+
+                    // The "unauthed shared secret" is derived from just the KEX of the ephemeral
+                    // input with the recipient pubkey. The HKDF-Expand call only errors if the
+                    // output values are 255x the digest size of the hash function. Since these
+                    // values are fixed at compile time, we don't worry about it.
+                    let mut buf = <SharedSecret<$kem_name> as Default>::default();
+                    extract_and_expand::<$kdf>(
+                        &encapped_key.to_bytes(),""")], expect_note='dh term replaced too so that pk_recip no longer flows at all'),
+    dict(name='c07-psk-id-not-hashed-separately', expect=[('C07', 'R07.2')],
+         note='psk_id and info concatenated into one extract: bytes can move between them',
+         edits=[(SETUP, 'labeled_extract::<Kdf>(&[], &suite_id, b"info_hash", info);', 'labeled_extract::<Kdf>(&[], &suite_id, b"psk_id_hash", info);')]),
+    dict(name='c07-export-ignores-context', expect=[('C07', 'R07.1')],
+         note='exporter context ignored: all exports of one length are equal',
+         edits=[(AEAD, '.labeled_expand(&self.suite_id, b"sec", exporter_ctx, out_buf)', '.labeled_expand(&self.suite_id, b"sec", &[], out_buf)')]),
 ]
